@@ -204,7 +204,7 @@ fn run(ctx: &Ctx, out: &mut Out) {
 fn leg_programs(ctx: &Ctx, out: &mut Out) {
     let fam = Fam::Core;
     let mut m = Merkle::default();
-    let nmax = ctx.tier.pick(4, 5);
+    let nmax = ctx.tier.pick(5, 5);
     for n in 1..=nmax {
         let mut alpha = sigma_p(fam);
         alpha.retain(|s| *s != Sym::Disc2);
@@ -254,7 +254,10 @@ fn leg_programs(ctx: &Ctx, out: &mut Out) {
                     ctx.end();
                 }
             }
-            // (b) every text rendering of the DAG
+            // (b) every text rendering of the DAG (quick: programs with <= 4 nodes)
+            if ctx.tier == Tier::Quick && dag.len() > 4 {
+                continue;
+            }
             let leg = "texts";
             let k = dag.len() - 1;
             for mask in 0..(1u32 << k) {
